@@ -489,6 +489,45 @@ func checkC03(c *Ctx) {
 		}
 	}
 
+	// ---- C03.8 the handler turns a peer away before the deadline is armed only when an address lookup FAILED; what a
+	// lookup says about the address (no record, reserved AS number, unknown country) is an answer, not a failure -
+	// otherwise every peer from an address the databases do not cover is closed at once, whatever it sends
+	r.Rule("C03.8", "the GeoIP wrappers report an error only when the database reader returned one", 2)
+	for _, m := range []string{"ASN", "CC"} {
+		f := c.fn("C03.8", "pkg/station/geoip", "maxMindDatabase", m)
+		if f == nil {
+			continue
+		}
+		var lookups []*ssa.Call
+		eachInstr(f, func(in ssa.Instruction) {
+			if call, ok := in.(*ssa.Call); ok && strings.Contains(calleeName(&call.Call), "geoip2-golang.Reader).") {
+				lookups = append(lookups, call)
+			}
+		})
+		nErr, okAll := 0, len(lookups) > 0
+		eachInstr(f, func(in ssa.Instruction) {
+			ret, ok := in.(*ssa.Return)
+			if !ok || len(ret.Results) != 2 || ret.Block().Comment == "recover" {
+				return
+			}
+			if cst, isC := returnedValue(ret, 1, nil).(*ssa.Const); isC && cst.Value == nil {
+				return
+			}
+			nErr++
+			g := false
+			for _, lk := range lookups {
+				if guarded(f, ret, errAtoms(lk, false)...) {
+					g = true
+				}
+			}
+			if !g {
+				okAll = false
+			}
+		})
+		r.Check(okAll, "C03.8", "geoip "+m+": an error is returned only after the reader's lookup failed", f.Pos(), fnName(f), fmt.Sprintf("%d error return(s), each dominated by the reader's err != nil", nErr),
+			"the "+m+" lookup reports an error for an address the database merely has no (useful) record for: the connection handler returns on that error before it arms the classification deadline, so such peers are closed immediately instead of being read until the deadline")
+	}
+
 	// ---- C03.7 the handler waits on nothing but the connection: a handler parked on a channel or a wait group is
 	// not reading the probe, and the classification deadline (a read deadline) cannot fire for it
 	r.Rule("C03.7", "the connection handler (and the helpers it calls in its package) never parks on a channel, select or wait group", 1)
